@@ -822,6 +822,23 @@ pub fn run(seed: u64, n: usize, kinds: &[String], out: &mut dyn Write) -> std::i
                     if r.chance(1, 2) { (d0, d1) } else { (d1, d0) }
                 }
             };
+            // one call in four: strongly skewed reserves (ratio 10^-9 .. 10^-18, assets of very different decimals), a small
+            // tolerance, and a deposit that is off the reserve ratio by a relative 2^-10 .. 2^-24 beyond the tolerance on
+            // the LARGE side - the comparison in which the small/large ratio's 18-digit truncation must not be reused
+            let (t, d0, d1, r0, r1) = if r.chance(1, 4) {
+                let k = r.range(9, 19) as u32;
+                let s0 = r.range(1, 1_000_000) as u128;
+                let s1 = s0 * 10u128.pow(k) + r.below128(10u128.pow(k - 3));
+                let tt = match r.below(3) { 0 => 0, 1 => r.below128(D18 / 1000), _ => pal_rate(&mut r).min(D18 / 2) };
+                let e0 = r.range(1, 10_000_000) as u128;
+                let base = (u(e0) * u(s1) / u(s0)) * u(D18) / u(D18 - tt);
+                let off = base >> (r.range(10, 25) as usize);
+                let e1 = u256_to_u128(&(if r.chance(3, 4) { base + off } else { base - off })).unwrap_or(u128::MAX);
+                let tv = if tt == 0 && r.chance(1, 2) { None } else { Some(tt) };
+                if r.chance(1, 2) { (tv, e0, e1, s0, s1) } else { (tv, e1, e0, s1, s0) }
+            } else {
+                (t, d0, d1, r0, r1)
+            };
             emit(ev_slip(t, d0, d1, r0, r1), out, &mut count)?;
         } else {
             if !want("arith") {
